@@ -712,6 +712,26 @@ def apply(func, args, kwargs=None):
               "$operator.eq": "cmp_eq", "$operator.ne": "cmp_ne"}.get(x.key())
         if op is not None and isinstance(args[1], Rat) and isinstance(args[2], Rat):
             return apply(op, [args[1], args[2]])
+    if func == "getitem" and len(args) == 2 and x is not None and not extra:
+        # (A if c else B)[k] with A, B python tuples / lists of known length and k a constant: the element is selected per branch
+        xa0 = x.as_atom("ifexp")
+        ix = args[1]
+        if isinstance(ix, tuple) and len(ix) == 1:
+            ix = ix[0]
+        kc = ix.const_value() if isinstance(ix, Rat) else None
+        if xa0 is not None and len(xa0.args) == 3 and kc is not None and kc == int(kc):
+            def elems(v):
+                if isinstance(v, tuple) and (not v or not isinstance(v[0], str)) and all(isinstance(e, Rat) for e in v):
+                    return list(v)
+                if isinstance(v, Rat):
+                    pl = v.as_atom("pylist")
+                    if pl is not None and pl.args and isinstance(pl.args[0], tuple) and all(isinstance(e, Rat) for e in pl.args[0]):
+                        return list(pl.args[0])
+                return None
+            ea, eb = elems(xa0.args[1]), elems(xa0.args[2])
+            k = int(kc)
+            if ea is not None and eb is not None and -len(ea) <= k < len(ea) and -len(eb) <= k < len(eb):
+                return apply("ifexp", [xa0.args[0], ea[k], eb[k]])
     if func == "ifexp" and len(args) == 3 and x is not None and not extra:
         c = x.const_value()
         if c is not None:
